@@ -20,7 +20,7 @@ def table_check(v, module, consts, tin, rows, prefix):
     for f in res['fails']:
         r = rows[f['row'] - 1]
         for c in f['clauses']:
-            v.fail(c, {'input': {k: r[k] for k in ('rounds', 'H', 'reps', 'd', 'state') if k in r}}, replay={'row': r})
+            v.fail(c, {'input': json.dumps({k: r[k] for k in r if k not in ('base', 'sequences', 'qubits', 'blocks')})[:500]}, replay={'row': r})
     return tr, res
 
 
